@@ -291,20 +291,24 @@ def check_BF(case):
     for s, B in zip(sites, Bs):
         Bp = B.transpose(1, 0, 2)
         flat.append(Bp[np.argsort(np.asarray(s.perm))] if case['permute'] else Bp)
-    psi = call('from_Bflat', lambda: MPS.from_Bflat(sites, flat, SVs, bc=case['bc'], permute=case['permute'], form=form, unit_cell_width=L))
-    if psi.form != H.form_tuples('B', L) and max(psi.chi) > 1:
-        raise Bad('from_Bflat:forms', 'psi.form = %r' % (psi.form,))
+    import tenpy.linalg.np_conserved as npc
+    legL = npc.LegCharge.from_qflat(sites[0].leg.chinfo, [list(q) for q in virt[0]]).bunch()[1]  # conventional charges on bond 0
+    psi = call('from_Bflat', lambda: MPS.from_Bflat(sites, flat, SVs, bc=case['bc'], permute=case['permute'], form=form, legL=legL, unit_cell_width=L))
+    # from_Bflat canonicalises (and thereby normalises) only if L > 1 and chi > 1; otherwise the tensors are kept as given
+    canon = all(f is not None for f in psi.form)
+    if canon != (L > 1 and max(psi.chi) > 1) and form is None:
+        raise Bad('from_Bflat:forms', 'psi.form = %r with L = %d, chi = %r' % (psi.form, L, psi.chi))
     if infinite:
         inf = D.Infinite(Bs)
-        model = H.Model(psi, dict(rho=inf.rho(2), schmidt=[inf.schmidt(b) for b in range(L)]), True)
-        model.norm, model.scale = 1.0, 1.0
+        model = H.Model(psi, dict(rho=inf.rho(2), schmidt=[inf.schmidt(b) for b in range(L)]), canon)
+        model.norm, model.scale = 1.0, (1.0 if canon else inf.eta)
         try:
             H.observe(psi, model)
         except Bad as e:
             raise Bad('from_Bflat:infinite:' + e.key, e.what)
         return
     T = U.contract(Bs)
-    expect_state(psi, T / np.linalg.norm(T), 1.0, 'from_Bflat')
+    expect_state(psi, T / np.linalg.norm(T) if canon else T, 1.0, 'from_Bflat', canonical=canon)
 
 
 def right_canonical(Bs):
@@ -443,12 +447,20 @@ def check_COV(case):
             covering.append(MPS.from_product_state(sl, [v], dtype=v.dtype, permute=False, unit_cell_width=1))
         else:
             covering.append(MPS.from_full(sl, U.to_npc(v, sl), form=('B', 'A', 'C')[k % 3], unit_cell_width=len(sl)))
-    psi = call('from_product_mps_covering', lambda: MPS.from_product_mps_covering(covering, [tuple(i) for i in case['index_map']], unit_cell_width=L))
-    if psi.form != H.form_tuples('B', L):
-        raise Bad('from_product_mps_covering:forms', 'psi.form = %r' % (psi.form,))
-    if [s.dim for s in psi.sites] != [U.site(k).dim for k in keys]:
-        raise Bad('from_product_mps_covering:sites', 'sites of the result are not those of the local MPS at the mapped positions')
-    expect_state(psi, place(blocks), 1.0, 'from_product_mps_covering')
+    # classes of index maps (for stable keys): a block whose sorting permutation is not an involution / a block that
+    # spans a site of another block
+    cyclic = any(list(np.argsort(np.argsort(b))) != list(np.argsort(b)) for b in case['index_map'])
+    crossing = any(min(b) < i < max(b) for b in case['index_map'] for c in case['index_map'] if c is not b for i in c)
+    try:
+        psi = call('from_product_mps_covering', lambda: MPS.from_product_mps_covering(covering, [tuple(i) for i in case['index_map']], unit_cell_width=L))
+        if psi.form != H.form_tuples('B', L):
+            raise Bad('from_product_mps_covering:forms', 'psi.form = %r' % (psi.form,))
+        if [s.dim for s in psi.sites] != [U.site(k).dim for k in keys]:
+            raise Bad('from_product_mps_covering:sites', 'sites of the result are not those of the local MPS at the mapped positions')
+        expect_state(psi, place(blocks), 1.0, 'from_product_mps_covering')
+    except Bad as e:
+        tag = (':crossing' if crossing else '') if 'exception' in e.key else (':cyclic-index-map' if cyclic else '')
+        raise Bad(e.key + tag, e.what)
 
 
 def cases_COV(unit):
